@@ -5,6 +5,7 @@ import (
 	"fmt"
 	"math/rand"
 	"sync"
+	"sync/atomic"
 	"testing"
 	"testing/synctest"
 	"time"
@@ -20,7 +21,7 @@ func TestC12(t *testing.T) {
 	mon.Main(t, mon.Check{
 		ID:    "C12",
 		Level: "exploration",
-		Rule:  "each case draws a GBN scenario (random N, timeouts, keepalive, latency, mild faults, bidirectional traffic with idle gaps), runs it once to collect the virtual instants of its wire events, then re-runs it K times injecting Close at one of those instants (-1ns/0/+1ns) or at a random instant, by client / server / both at the same instant / twice concurrently, with the transport working / blackholed / its send blocking until cancellation; plus handshake-phase cancellation cases. Oracles: Close returns within finSendTimeout+9*resendTimeout+1s of virtual time; later Send/Recv fail at once; FIN on the wire when the transport works; peer closes itself when the FIN is delivered; every blocked caller returns; no goroutine of gbn alive in the bubble afterwards. Non-trivial = a Close was injected while the connection was open; distinct = (closer, transport condition, phase bucket, what the send loop was doing).",
+		Rule:  "each case draws a GBN scenario (random N, timeouts, keepalive, latency, mild faults, bidirectional traffic with idle gaps), runs it once to collect the virtual instants of its wire events, then re-runs it K times injecting Close at one of those instants (-1ns/0/+1ns) or at a random instant, by client / server / both at the same instant / twice concurrently, with the transport working / blackholed / its send blocking until cancellation; plus handshake-phase cancellation cases. Oracles: Close returns within finSendTimeout+2s of virtual time (it must not wait for resend or sync timers); later Send/Recv fail at once; FIN on the wire when the transport works; peer closes itself when the FIN is delivered; every blocked caller returns; no goroutine of gbn alive in the bubble afterwards. Non-trivial = a Close was injected while the connection was open; distinct = (closer, transport condition, phase bucket, what the send loop was doing).",
 		Assumptions: []string{
 			"goroutine census covers goroutines, not bare time.Ticker objects without a goroutine",
 			"virtual time (synctest): bounds are exact, schedules sampled",
@@ -33,6 +34,11 @@ func TestC12(t *testing.T) {
 		},
 		MinEvals: 50,
 		Run:      runC12,
+		Finish: func(sh *mon.Shard) {
+			if c12Frozen.Load() {
+				mon.FlushAndExit(sh)
+			}
+		},
 	})
 }
 
@@ -120,7 +126,42 @@ func runC12(c *mon.Case) {
 	}
 }
 
+// c12Frozen is set when a virtual-time scenario of this worker froze; the worker
+// then ends through FlushAndExit because the frozen bubble cannot be torn down.
+var c12Frozen atomic.Bool
+
+// runC12Variant runs the variant in virtual time. If the bubble does not finish
+// within 40 s of real time it is frozen: some goroutine waits on a mutex (e.g.
+// sync.Once inside Close) whose holder needs the clock to advance, which a
+// bubble cannot provide. That is not a verdict by itself, so the same variant
+// is run again on the real clock and judged there.
 func runC12Variant(c *mon.Case, sc *eng.Scen, cv closeVariant) {
+	done := make(chan struct{})
+	go func() {
+		defer close(done)
+		runC12VariantIn(c, sc, cv, true)
+	}()
+	select {
+	case <-done:
+		return
+	case <-time.After(40 * time.Second):
+	}
+	c12Frozen.Store(true)
+	c.Shard.Count("virtual_time_freezes", 1)
+	if cv.At > 30*time.Second {
+		c.Shard.Inconc(fmt.Sprintf("case %d: bubble froze for a Close at %v; too late in the scenario to repeat in real time", c.Idx, cv.At))
+		return
+	}
+	runC12VariantIn(c, sc, cv, false)
+}
+
+func runC12VariantIn(c *mon.Case, sc *eng.Scen, cv closeVariant, virtual bool) {
+	settle := synctest.Wait
+	hang := time.Hour
+	if !virtual {
+		settle = func() { time.Sleep(200 * time.Millisecond) }
+		hang = 45 * time.Second
+	}
 	type closeObs struct {
 		who      string
 		took     time.Duration
@@ -211,16 +252,16 @@ func runC12Variant(c *mon.Case, sc *eng.Scen, cv closeVariant) {
 		go func() { wg.Wait(); close(closed) }()
 		select {
 		case <-closed:
-		case <-time.After(time.Hour):
+		case <-time.After(hang):
 			c.Shard.Violate("close-hangs",
-				fmt.Sprintf("Close (%+v) had not returned after one hour of virtual time", cv), rep(nil))
+				fmt.Sprintf("Close (%+v) had not returned after %v (virtual clock: %v)", cv, hang, virtual), rep(nil))
 			mon.FlushAndExit(c.Shard)
 		}
 		// No application goroutine may still be inside a call on a closed
 		// endpoint once the bubble has settled. Flow a: sender on C,
 		// receiver on S; flow b: sender on S, receiver on C.
 		time.Sleep(time.Millisecond)
-		synctest.Wait()
+		settle()
 		for _, nm := range names {
 			is, ir := a.InSend.Load(), b.InRecv.Load()
 			if nm == "S" {
@@ -235,8 +276,8 @@ func runC12Variant(c *mon.Case, sc *eng.Scen, cv closeVariant) {
 		for i, g := range targets {
 			t0 := time.Now()
 			_ = g.Close()
-			if el := time.Since(t0); el > 0 {
-				c.Shard.Violate("reclose-slow", fmt.Sprintf("repeated Close on %s took %v of virtual time", names[i], el), rep(nil))
+			if el := time.Since(t0); el > 0 && virtual || el > time.Second {
+				c.Shard.Violate("reclose-slow", fmt.Sprintf("repeated Close on %s took %v (virtual clock: %v)", names[i], el, virtual), rep(nil))
 			}
 			// Later calls must fail at once.
 			t0 = time.Now()
@@ -247,13 +288,19 @@ func runC12Variant(c *mon.Case, sc *eng.Scen, cv closeVariant) {
 				// Recv may legitimately drain a buffered message only if it does not block; it must not succeed after close.
 				c.Shard.Violate("recv-after-close-ok", fmt.Sprintf("Recv on %s returned data after Close returned", names[i]), rep(nil))
 			}
-			if el := time.Since(t0); el > 0 {
-				c.Shard.Violate("call-after-close-blocks", fmt.Sprintf("Send/Recv after Close on %s took %v of virtual time", names[i], el), rep(nil))
+			if el := time.Since(t0); el > 0 && virtual || el > time.Second {
+				c.Shard.Violate("call-after-close-blocks", fmt.Sprintf("Send/Recv after Close on %s took %v (virtual clock: %v)", names[i], el, virtual), rep(nil))
 			}
 		}
 	}
 
-	r := eng.RunScen(c.T, sc, eng.Hooks{During: during, WaitDuring: true, OnLeak: leakHook(c, sc)})
+	var r *eng.ScenResult
+	if virtual {
+		r = eng.RunScen(c.T, sc, eng.Hooks{During: during, WaitDuring: true, OnLeak: leakHook(c, sc)})
+	} else {
+		sc.Horizon = cv.At + 40*time.Second
+		r = eng.RunScenRealTime(sc, eng.Hooks{During: during, WaitDuring: true})
+	}
 	if r.ConnErrC != nil || r.ConnErrS != nil {
 		return
 	}
@@ -265,10 +312,16 @@ func runC12Variant(c *mon.Case, sc *eng.Scen, cv closeVariant) {
 	}
 	anyOpen := false
 	for _, o := range obs {
-		bound := time.Second + 9*o.rt + time.Second
+		// With a transport that does not block, nothing in Close waits for
+		// a timer: the quit channels wake every loop. The only legitimate
+		// wait is the FIN write (finSendTimeout, 1 s) on a blocking transport.
+		bound := time.Second + 2*time.Second
+		if !virtual {
+			bound += 2 * time.Second // scheduling slack on the real clock
+		}
 		if o.took > bound {
 			c.Shard.Violate("close-slow",
-				fmt.Sprintf("Close on %s at %v took %v of virtual time (bound %v, resend timeout %v)", o.who, o.start, o.took, bound, o.rt), rep(r))
+				fmt.Sprintf("Close on %s at %v took %v (virtual clock: %v; bound %v, resend timeout %v)", o.who, o.start, o.took, virtual, bound, o.rt), rep(r))
 		}
 		c.Shard.Max("max_close_virtual_ms", o.took.Milliseconds())
 		if o.wasOpen {
